@@ -78,7 +78,7 @@ func TestC29SQL(t *testing.T) {
 		rows := rapid.SliceOfN(str, 2, 6).Draw(rt, "rows")
 		var probe string
 		if rapid.Bool().Draw(rt, "probeFromRows") {
-			probe = flipASCIICase(rapid.SampledFrom(rows).Draw(rt, "probe"), false)
+			probe = flipASCIICase(rapid.SampledFrom(rows).Draw(rt, "probe"), nil)
 		} else {
 			probe = str.Draw(rt, "probe")
 		}
